@@ -236,6 +236,15 @@ def mappings(ck, F):
         ok = len(cs) == 1 and all(strip_expr(b.expr(a)) == ("param", i) or i == 0 for i, a in enumerate(cs[0].args))
         ck.require(ok, "C19:FORWARD:%s" % fn, "faithful mapping", "%s forwards its arguments unchanged" % fn,
                    "JsInterpreter::%s no longer forwards to the core unchanged" % fn, b.span)
+        if len(cs) == 1:
+            # ... and on every path that returns: an adapter that swallows the call in some states no longer exposes what
+            # the core produces for the same calls (a break while INPUT is awaited gives BREAK and Idle in the core)
+            pd = b.postdominators()
+            always = cs[0].bb == 0 or cs[0].bb in pd.get(0, set())
+            ck.require(always, "C19:FORWARD:%s:unconditional" % fn, "faithful mapping",
+                       "every returning path of %s passes the call of the core" % fn,
+                       "JsInterpreter::%s forwards to the core only on some paths: for the states it filters out, the adapter's state "
+                       "and output differ from what the core produces for the same call" % fn, cs[0].span)
 
 
 def line_forwarding(ck, F):
